@@ -213,7 +213,9 @@ def judge (j : Json) : Except String Verdict := do
          | _ => evs == ["start"]),
       "C18:skip", s!"events: {(esIn.filter fun e => mayLaunch e && observable e).map fun e => (e.name, eventsFor e.name)}"),
     (oR1 == "" && oR2 == "", "C18:request-failed", s!"r1={oR1} r2={oR2}"),
-    (oProbes.all (fun p => p.after != "zombie"), "C18:unreaped-child:exits-before-registering",
+    (oProbes.all (fun p => p.after != "zombie"),
+      "C18:unreaped-child:" ++ "+".intercalate (sortStrings ((oProbes.filter (·.after == "zombie")).map fun p =>
+          match esIn.find? (·.name == p.file) with | some e => e.behave | none => "?").eraseDups),
       s!"unreaped (zombie) children of the runtime after Stop: {(oProbes.filter (·.after == "zombie")).map (·.file)}")
   ]
   let inDomain := !anyDirDropin
